@@ -344,12 +344,37 @@ func boolInt(b bool) int {
 
 func ruleWin2(c *Ctx, r *Reporter) {
 	n := 0
-	for _, name := range []struct{ pkg, fn string }{{pkgBsonkit, "Sort"}, {pkgMongokit, "pushSort"}, {pkgMongokit, "pushSortDirect"}} {
+	// the two sorting entry points, their function literals and the functions of their package they call (the
+	// direct-value variant of $sort is a helper today, it may as well be a closure)
+	var fns []*ssa.Function
+	seen := map[*ssa.Function]bool{}
+	var add func(fn *ssa.Function, depth int)
+	add = func(fn *ssa.Function, depth int) {
+		if fn == nil || fn.Blocks == nil || seen[fn] || depth > 2 {
+			return
+		}
+		seen[fn] = true
+		fns = append(fns, fn)
+		for _, g := range fn.AnonFuncs {
+			add(g, depth)
+		}
+		allInstrs(fn, func(in ssa.Instruction) {
+			if call, ok := in.(*ssa.Call); ok {
+				if h := staticFn(&call.Call); h != nil && h.Parent() == nil && fnPkgPath(h) == fnPkgPath(fn) && strings.Contains(strings.ToLower(h.Name()), "sort") {
+					add(h, depth+1)
+				}
+			}
+		})
+	}
+	for _, name := range []struct{ pkg, fn string }{{pkgBsonkit, "Sort"}, {pkgMongokit, "pushSort"}} {
 		fn := c.lookupSSA(name.pkg, name.fn)
 		if fn == nil {
 			r.bad("anchor:"+name.fn, "-", "not found")
 			continue
 		}
+		add(fn, 0)
+	}
+	for _, fn := range fns {
 		allInstrs(fn, func(in ssa.Instruction) {
 			call, ok := in.(*ssa.Call)
 			if !ok {
